@@ -29,7 +29,13 @@ sender, receiver, retry timer; server: srv = (srv + subscribe) - unsubscribe per
     in Send), by TLC's counterexamples of the AsyncApply variant and by simulated message behaviours of the intended
     design; oracle: at quiescence what every live stream carries, and each client's subscribed set, equal the last
     dependency set;
- 7. thorough: end to end through the production path (dependency stream hook -> Subscribe) against a real gRPC
+ 7. a request may not be able to carry everything (MaxPerRequest: a finite bound must violate Converges): on the code, the
+    production dial path again (config.New), 1500 services with long names learnt in small dependency messages, the server
+    ends the service streams once, the next streams must carry exactly the set (the resubscription is one request);
+ 8. the read section of resubscribe (ResubLock .. ResubSnap; RecursiveRLock must violate NoDeadlock / CallerReturns): rounds
+    with the caller parked on the full queue when the stream is granted, the client's logger at DEBUG into a slow sink (no
+    hook point exists inside the section; log lines written there are what a slow sink stretches);
+ 9. thorough: end to end through the production path (dependency stream hook -> Subscribe) against a real gRPC
     discovery server implemented in the harness.
 """
 import concurrent.futures as cf
@@ -45,6 +51,8 @@ LEVEL = "model_checking"
 SIG_DEADLOCK = "deadlock/queue-full-holding-lock"
 SIG_BATCH = "out-of-sync/sub-unsub-same-batch"
 SIG_SILENT = "no-retry/silent-connection-loss"
+SIG_LARGE = "out-of-sync/large-set-not-resubscribed"
+SIG_RLOCK = "deadlock/resubscribe-stuck-in-read-section"
 SIG_DEPORDER = "out-of-sync/dependency-messages-applied-out-of-order"
 SILENT_CONFIRM_S = 150     # "never" is only reported after this long (the verdict must not depend on machine load)
 SILENT_DEADLINE_S = 90     # generously above keepalive time + timeout (30 s + 10 s; grpc 1.23 needs up to 2*30 + 10)
@@ -87,7 +95,7 @@ def emit_behaviours(ctx):
     n_cex = 400 if ctx.thorough else 10
     q = "" if ctx.thorough else "_quick"   # quick: the same search without stream failures
     for cfg, kind in (("Gen_Discovery_cex_deadlock%s.cfg" % q, "cex-deadlock"), ("Gen_Discovery_cex_outofsync%s.cfg" % q, "cex-outofsync")):
-        r = ctx.tlc("config", "DiscoveryGen", cfg, workers=1, timeout=300)
+        r = ctx.tlc("config", "DiscoveryGen", cfg, workers=1, timeout=900)
         if r.timeout or r.error:
             raise kit.Inconclusive("counterexample emission %s failed: %s" % (cfg, r.error[:500]))
         cex = [p for (tag, p) in r.prints if tag == "CEX"]
@@ -103,7 +111,7 @@ def emit_behaviours(ctx):
             add(kind, c["hist"])
     num = 500 if ctx.thorough else 70
     r = ctx.tlc("config", "DiscoveryGen", "Gen_Discovery.cfg", mode="sim", workers=1, sim_num=num, sim_depth=200,
-                seed=ctx.seed, deadlock=False, timeout=300)
+                seed=ctx.seed, deadlock=False, timeout=900)
     behs = [p for (tag, p) in r.prints if tag == "BEH"]
     if len(behs) < num // 2:
         raise kit.Inconclusive("only %d simulated behaviours emitted: %s" % (len(behs), r.error[:300]))
@@ -119,6 +127,10 @@ def classify_stuck(o):
     full = d.get("cap") and (d.get("subq") == d["cap"] or d.get("unsubq") == d["cap"])
     if d.get("callerBlocked") and not d.get("lockFree") and full and not d.get("pendNS") and not d.get("pendSend"):
         return SIG_DEADLOCK
+    if (d.get("callerBlocked") and not d.get("lockFree") and not full and d.get("streamUp") and d.get("msgsOnStream") == 0
+            and not d.get("pendNS") and not d.get("pendSend")):
+        # stream granted, queue flushed, lock never released, nothing ever sent: resubscribe is inside its read section
+        return SIG_RLOCK
     if d.get("callerBlocked"):
         return "deadlock/call-never-returns"
     return "deadlock/never-settles"
@@ -294,9 +306,12 @@ def part_pinned(ctx):
         "MC_Discovery_nokeepalive.cfg": ["NoDeadlock"],
         "MC_Discovery_nokeepalive_retry.cfg": ["TEMPORAL"],
         "MC_Discovery_nokeepalive_converges.cfg": ["TEMPORAL"],
+        "MC_Discovery_recursive_rlock.cfg": ["NoDeadlock"],
+        "MC_Discovery_recursive_rlock_callers.cfg": ["TEMPORAL"],
+        "MC_Discovery_maxperrequest.cfg": ["TEMPORAL"],
         "MC_Discovery_asyncapply.cfg": ["SetTracksDeps"],
         "MC_Discovery_asyncapply_insync.cfg": ["InSync"],
-        "MC_Discovery_windows.cfg": ["NotW1", "NotW2", "NotW3", "NotW4", "NotW5", "NotW6", "NotW7", "NotW8"],
+        "MC_Discovery_windows.cfg": ["NotW1", "NotW2", "NotW3", "NotW4", "NotW5", "NotW6", "NotW7", "NotW8", "NotW9"],
     }
     out = {}
     for cfg, e in exp.items():
@@ -311,6 +326,8 @@ def part_pinned(ctx):
             r = ctx.tlc("config", "Discovery", cfg, workers=2, timeout=300)
             prop = {"MC_Discovery_pinned_callers.cfg": "CallerReturns", "MC_Discovery_pinned_retry.cfg": "KeepsRetrying",
                     "MC_Discovery_nokeepalive_retry.cfg": "KeepsRetrying",
+                    "MC_Discovery_recursive_rlock_callers.cfg": "CallerReturns",
+                    "MC_Discovery_maxperrequest.cfg": "Converges",
                     "MC_Discovery_nokeepalive_converges.cfg": "Converges"}[cfg]
             if "Temporal property %s was violated" % prop not in r.stdout:
                 raise kit.Inconclusive("TLC %s: expected a counterexample for %s, got %s %s" % (cfg, prop, r.violated, r.error[:300]))
@@ -400,7 +417,7 @@ def part_deps(ctx):
     scripts = []
     for kind, steps in mandatory_dep_strata():
         scripts.append({"id": len(scripts), "kind": kind, "cap": 16, "steps": steps})
-    r = ctx.tlc("config", "DiscoveryGen", "Gen_Discovery_cex_async%s.cfg" % ("" if ctx.thorough else "_quick"), workers=1, timeout=300)
+    r = ctx.tlc("config", "DiscoveryGen", "Gen_Discovery_cex_async%s.cfg" % ("" if ctx.thorough else "_quick"), workers=1, timeout=900)
     cex = [p for (tag, p) in r.prints if tag == "CEX"]
     if r.timeout or r.error or not cex:
         raise kit.Inconclusive("AsyncApply counterexample emission failed or empty: %s" % r.error[:300])
@@ -420,7 +437,7 @@ def part_deps(ctx):
             scripts.append({"id": len(scripts), "kind": "cex-asyncapply", "cap": 1, "steps": steps})
     num = 150 if ctx.thorough else 24
     r = ctx.tlc("config", "DiscoveryGen", "Gen_Discovery_deps.cfg", mode="sim", workers=1, sim_num=num, sim_depth=200,
-                seed=ctx.seed, deadlock=False, timeout=300)
+                seed=ctx.seed, deadlock=False, timeout=900)
     behs = [p for (tag, p) in r.prints if tag == "BEH"]
     if len(behs) < num // 2:
         raise kit.Inconclusive("only %d simulated dependency behaviours emitted: %s" % (len(behs), r.error[:300]))
@@ -438,6 +455,18 @@ def part_deps(ctx):
     if len(results) != len(scripts):
         raise kit.Inconclusive("dependency driver returned %d results for %d scripts" % (len(results), len(scripts)))
     return scripts, results
+
+
+def part_largeset(ctx):
+    rfile = os.path.join(ctx.work, "largeset.ndjson")
+    ctx.harness(["c16-largeset", "-out", rfile, "-n", "2000" if ctx.thorough else "1500", "-deadline", "20s", "-confirm", "40s"], timeout=400)
+    return kit.read_ndjson(rfile)[0]
+
+
+def part_parked(ctx):
+    rfile = os.path.join(ctx.work, "parked.ndjson")
+    ctx.harness(["c16-parked", "-out", rfile, "-rounds", "300" if ctx.thorough else "40"], timeout=600)
+    return kit.read_ndjson(rfile)[0]
 
 
 def part_keepalive(ctx):
@@ -484,7 +513,7 @@ def run(ctx):
         "grpc-go 1.23 declares a silent connection dead within 2*Time + Timeout; the keepalive parameters are read from the ClientConn by reflection",
     ]
     parts = {"model": part_model, "enqfix": part_model_enqfix, "pinned": part_pinned, "replay": part_replay, "random": part_random,
-             "keepalive": part_keepalive, "deps": part_deps}
+             "keepalive": part_keepalive, "deps": part_deps, "largeset": part_largeset, "parked": part_parked}
     parts["model_deps"] = part_model_deps
     if ctx.thorough:
         parts["model_async_live"] = part_async_converges
@@ -614,6 +643,33 @@ def run(ctx):
     if dscripts:
         ctx.sample({"dependency_script": dscripts[0]["kind"], "messages": dres[0]["messages"], "deps": len(dres[0]["deps"]),
                     "config_stream_in_sync": dres[0]["clients"]["config"]["inSync"], "set_differs": dres[0]["setDiffers"]})
+
+    # ---- a large set through the production dial path
+    lg = res["largeset"]
+    if lg.get("err"):
+        raise kit.Inconclusive("large-set scenario: " + lg["err"])
+    ctx.case(key="e2e/" + lg["name"], nontrivial=True)
+    ctx.cov["largeset"] = {k: lg[k] for k in ("name", "services", "nameBytes", "recovered", "elapsed_s", "streamsAfter")}
+    if not lg["recovered"]:
+        ctx.violation(SIG_LARGE,
+                      "%s: %d services (%d bytes of names) were subscribed incrementally on the first streams; %.0f s after the server "
+                      "ended those streams no new stream carries the set (service streams seen by the server: %s; config stream misses %s)"
+                      % (lg["name"], lg["services"], lg["nameBytes"], lg["elapsed_s"], lg["streamsAfter"],
+                         lg["clients"]["config"]["missing"][:2]), {"scenario": lg})
+    elif lg["elapsed_s"] > lg["deadline_s"]:
+        raise kit.Inconclusive("large-set scenario recovered only after %.0f s: machine too loaded to decide" % lg["elapsed_s"])
+    else:
+        ctx.cov["traces_validated_against_impl"] += 1
+
+    # ---- the read section of resubscribe
+    pk = res["parked"]
+    ctx.case(key="parked/%d" % pk["rounds"], nontrivial=True, n=pk["rounds"])
+    ctx.cov["parked"] = {k: pk[k] for k in ("rounds", "stuck", "firstStuckRound", "outOfSync", "subscribesPerRound")}
+    if pk["stuck"] or pk["outOfSync"]:
+        judge(ctx, "parked-caller round %d (%d subscribes before the stream is granted, client logging at DEBUG into a slow sink)"
+              % (pk["firstStuckRound"], pk["subscribesPerRound"]), pk, pk["out"], {"round": pk}, ctx.cov["parked"].setdefault("verdicts", {}))
+    else:
+        ctx.cov["traces_validated_against_impl"] += pk["rounds"]
 
     # ---- silent failures on the production constructor's connection
     judge_keepalive(ctx, res["keepalive"])
